@@ -29,6 +29,9 @@ def cases(ctx):
     # one large minimal DFA in which every pair of class positions occurs as a successor signature (>= 11 classes: two-digit positions)
     for i in range(1 if not thorough else 4):
         yield {'D': gen.signature_complete_dfa(rng), 'sched': [], 'lean_ops': ['dfa_quotient', 'dfa_hopcroft']}
+    n = 1100        # a unary countdown chain: ~n refinement rounds (deeper than the default recursion limit)
+    yield {'D': {'Q': ['k%d' % i for i in range(n)], 'Sigma': ['a'], 'delta': [['k%d' % i, 'a', 'k%d' % min(i + 1, n - 1)] for i in range(n)],
+                 'q0': 'k0', 'F': ['k%d' % (n - 1)]}, 'sched': [], 'lean_ops': [], 'only': ['dfa_quotient', 'dfa_hopcroft']}
     # long state names with a long common prefix (products of automata with descriptive names)
     for i in range(30 if not thorough else 300):
         s = gen.counter_dfa(rng) if i % 3 == 0 else gen.random_dfa(rng, 6)
@@ -56,6 +59,8 @@ def cases(ctx):
             for e in s['delta']:
                 if e[2] == 'q1' and rng.random() < 0.5:
                     e[2] = 'q2'
+        if i % 3 == 1:       # the transition table filled in another order (per state: another symbol order), as after parsing hand-written text
+            s = dict(s, delta=sorted(s['delta'], key=lambda e: rng.random()))
         if not thorough or ctx.mine(i):
             yield {'D': s, 'sched': [rng.randint(0, 7) for _ in range(10)]}
 
@@ -96,6 +101,8 @@ def judge(ctx, c, answers):
     ops = c.get('lean_ops', [o for o, _ in ROUTINES])
     ans = iter(answers)
     for (op, f) in ROUTINES:
+        if op not in c.get('only', [o for o, _ in ROUTINES]):
+            continue
         la = next(ans) if op in ops else None
         got = call(f, D, limit=60)
         if 'ok' not in got:
